@@ -200,6 +200,24 @@ func c03Boundary() []c03Expr {
 			c03Expr{fmt.Sprintf("%s(2.0)", k.name), []string{"boundary", "conv-integral-float", k.name}},
 		)
 	}
+	// ordered and equality comparisons of typed constants at the ends of their range (the unsigned ones above
+	// the signed maximum of the same width) with small and with extreme operands, in both orders
+	for _, k := range intKinds {
+		lo, hi := k.minmax()
+		mid := new(bigInt).Add(new(bigInt).Rsh(hi, 1), bigOne) // unsigned: the sign bit of the same width; signed: 2^(bits-2)
+		for vi, v := range []*bigInt{lo, hi, mid} {
+			for _, op := range []string{"==", "!=", "<", "<=", ">", ">="} {
+				for si, small := range []string{"0", "1", "100", hi.String()} {
+					vs := []string{"lo", "hi", "mid"}[vi]
+					ss := []string{"zero", "one", "hundred", "max"}[si]
+					out = append(out,
+						c03Expr{fmt.Sprintf("%s(%s) %s %s", k.name, v, op, small), []string{"boundary", "typed-compare", k.name, vs + op + ss}},
+						c03Expr{fmt.Sprintf("%s(%s) %s %s(%s)", k.name, small, op, k.name, v), []string{"boundary", "typed-compare-rev", k.name, ss + op + vs}},
+					)
+				}
+			}
+		}
+	}
 	for _, e := range []string{"1 / 0", "1.0 / 0", "1 % 0", "1 / 0.0", "(1 + 2i) / 0", "1 << -1", "1.5 << 2", "float32(1e39)", "float64(1e309)", "float32(3.4e38)", "complex64(1e39)",
 		"imag(3i)", "real(3i)", "imag(1)", "real(2.5)", "complex(1, 2)", "len(\"abc\")", "len([3]int{})", "'a' + 1", "'a' * 2.5", "1 << 62", "1 << 63", "-1 << 63", "1<<64 - 1", "-(1 << 63) - 1",
 		"9223372036854775807 + 1", "1<<100 >> 98", "(1<<100) / (1<<98)", "1<<200 >> 199", "0.1 + 0.2", "1e300 * 1e300 / 1e300", "1 / 3.0", "7 / 2", "7 / 2.0", "-7 / 2", "-7 % 3", "7 % -3",
